@@ -71,12 +71,17 @@ func (r *Reader) Read() (seq.Sequence, error) {
 	for {
 		var err error
 		if buff, isPrefix, err = r.r.ReadLine(); err != nil {
-			if err != io.EOF || r.working == nil {
-				return nil, err
+			// An unterminated final line that exactly fills the buffer is
+			// returned by ReadLine as prefix fragments followed by io.EOF;
+			// handle the line collected so far before acting on the EOF.
+			if err != io.EOF || len(line) == 0 {
+				if err != io.EOF || r.working == nil {
+					return nil, err
+				}
+				s, err = r.working, r.err
+				r.working = nil
+				return s, err
 			}
-			s, err = r.working, r.err
-			r.working = nil
-			return s, err
 		}
 		line = append(line, buff...)
 		if isPrefix {
